@@ -352,7 +352,7 @@ func (c *Case) Time() time.Time { return c.Ctx.BlockTime() }
 
 func isOverflow(p interface{}) bool {
 	s := fmt.Sprint(p)
-	return strings.Contains(s, "Int overflow") || strings.Contains(s, "overflow") && strings.Contains(s, "Int") ||
+	return strings.Contains(s, "Int overflow") || strings.Contains(s, "integer overflow") || strings.Contains(s, "overflow") && strings.Contains(s, "Int") ||
 		strings.Contains(s, "decimal out of range") || strings.Contains(s, "out of bound")
 }
 
